@@ -563,6 +563,17 @@ func execC19(sc *C19Scenario, tr *kit.Trace, res *kit.Result) {
 				res.Fail("C19/scoped-answer-outside-scope", "%s: got the answer %q; its effective scope is %s, the client's forwarded subnet is %s", ctx, tag, sp, want)
 				return
 			}
+			// capped by the scoped TTL limit: what the client (or a cache behind it) is told to
+			// keep the audience-specific answer for, on the reply that fetched it as on later hits
+			if sc.LimitS > 0 {
+				for _, rr := range m.Answer {
+					if t, ok := rr.(*dns.TXT); ok && len(t.Txt) > 0 && t.Txt[0] == tag && int(rr.Header().Ttl) > sc.LimitS {
+						res.Fail("C19/scoped-answer-ttl-above-cap", "%s: the scoped answer %q carries TTL %d, the scoped TTL limit is %ds (served from cache: %v)", ctx, tag, rr.Header().Ttl, sc.LimitS, fromCache)
+						return
+					}
+				}
+				res.Probes["scoped-ttl-within-cap"]++
+			}
 			if fromCache {
 				res.Nontrivial = true
 				res.Probes["scoped-served-from-cache"]++
